@@ -7,12 +7,13 @@ trial is declared trivial and no state is ever reported unstable (C07); two phas
 density (azeotrope, pure VLE) would be declared identical (C04/C05).  Rule: every trivial verdict — a construction of
 `EosError::TrivialSolution`, and the `(None, _)` return of `minimize_tpd` — is reachable only through the true edge of a
 branch on the result of `is_trivial_solution` (cut-set: with those edges removed the verdict is unreachable)."""
+import boolsum
 from cfg import Defs, reachable
 from facts import callee
 from report import RuleResult
 
 
-def _trivial_true_edges(b, defs):
+def _trivial_true_edges(F, b, defs):
     edges = set()
     for bi, blk in enumerate(b.blocks):
         t = blk["term"]
@@ -30,6 +31,14 @@ def _trivial_true_edges(b, defs):
             if d[0] == "call":
                 if callee(d[2])[2] == "is_trivial_solution":
                     src = d
+                else:
+                    # a thin wrapper (`fn is_trivial(&self) -> bool { Self::is_trivial_solution(self.vapor(), self.liquid()) }`):
+                    # its summary over the atom is_trivial_solution is the atom itself (or its negation)
+                    lit = boolsum.as_literal(boolsum.truth_table(F, F.callee_body(d[2]), ("is_trivial_solution",)), "is_trivial_solution")
+                    if lit:
+                        src = d
+                        if lit < 0:
+                            neg = not neg
                 break
             rv = d[4]
             if rv["k"] == "unop" and rv["op"] == "Not" and rv["a"].get("k") in ("copy", "move"):
@@ -79,7 +88,7 @@ def run(F):
         if not verdict_blocks:
             continue
         defs = Defs(b)
-        edges = _trivial_true_edges(b, defs)
+        edges = _trivial_true_edges(F, b, defs)
         cut = reachable(b, removed_edges=frozenset(edges))
         for bi, span, what in verdict_blocks:
             n += 1
